@@ -11,6 +11,14 @@ Lemma gen_cfg_fixed :
   /\ gen_complete_before_release = true.
 Proof. repeat split; reflexivity. Qed.
 
+(* the timeout sweeper logs the abort it decides (the model's Timeouts step = abort of every
+   timed-out transaction), and the scan treats EVERY phase record / completion record the way the
+   model's scan_step does (no record is skipped because of its source phase, its outcome or the
+   phase scanned so far) *)
+Lemma gen_decisions_logged_and_scanned :
+  gen_timeout_abort_logged = true /\ gen_scan_phase_plain = true /\ gen_scan_complete_plain = true.
+Proof. repeat split; reflexivity. Qed.
+
 (* commit / abort write TxComplete BEFORE any LockRelease record (read off the model's step, whose
    order the translator item `TxComplete before lock release` ties to the source) *)
 Lemma complete_logged_before_release : forall now c tx order c' w out,
